@@ -250,6 +250,18 @@ func c13Scenarios(tier string) []*Scenario {
 	for _, t := range triples {
 		scs = append(scs, mk("triple/"+ops[t[0]].n+"+"+ops[t[1]].n+"+"+ops[t[2]].n, []nop{ops[t[0]], ops[t[1]], ops[t[2]]}, prefix, base, other))
 	}
+	// the admission paths that only exist with a queue limit / the replace strategy (the list operation evaluates the
+	// same admission decision as a schedule request, under the read lock)
+	for _, v := range []struct {
+		n   string
+		cfg PipeCfg
+	}{{"qlimit", PipeCfg{Conc: 1, QL: 2, Graph: graphChain, RetCount: 1}}, {"replace", PipeCfg{Conc: 1, QL: 1, Replace: true, Graph: graphChain, RetCount: 1}}} {
+		o2 := v.cfg
+		o2.Conc = 2
+		for _, pr := range [][2]int{{4, 4}, {0, 4}, {0, 0}, {2, 4}, {3, 4}, {0, 2}, {4, 6}} {
+			scs = append(scs, mk(v.n+"/pair/"+ops[pr[0]].n+"+"+ops[pr[1]].n, []nop{ops[pr[0]], ops[pr[1]]}, prefix, v.cfg, o2))
+		}
+	}
 	// a pending start timer
 	dcfg := PipeCfg{Conc: 1, QL: -1, Graph: graphOne, Delay: dly, RetCount: 1}
 	dother := dcfg
